@@ -22,7 +22,7 @@ INFO = {
                    "to; OperatorDict.filter drops an entry iff its simplified value is falsy, stores the simplified value "
                    "and keeps key/value pairing; the filter runs only for symbolic operands; between the codegen result and "
                    "the emitted function no key is removed (canonical re-sort is a permutation).",
-    "decided": ["C06.trees", "C06.filter", "C06.filter-sites", "C04.registry-names", "C08.codegen-pipeline"],
+    "decided": ["C06.trees", "C06.semantic", "C06.filter", "C06.filter-sites", "C04.registry-names", "C08.codegen-pipeline"],
     "not_decided": ["sympy CSE / printing", "exactness of the zero test of sympy expressions (C17 covers the built-in class)"],
     "assumptions": ["M3: equality of normal forms is equality in every Clifford algebra", "C17.zero-test"],
 }
@@ -82,6 +82,65 @@ def trees(ctx):
             else:
                 ctx.violation(c, f"{cg} denotes [{out[1]!r}] but the definition {text} denotes [{want!r}]" + (f" ({label})" if label else "") +
                                  ": they differ in some Clifford algebra (free-algebra normal forms differ)", fn, got=repr(out[1]), expected=repr(want))
+
+
+SEMANTIC_REPS = {
+    # operator: [(label, keys of x, keys of y)] in the algebra with one positive, one negative and one null generator
+    "normsq": [("single blade squaring to -1", (3,), ()), ("single null blade", (4,), ()), ("single negative generator", (2,), ()),
+               ("pure scalar", (0,), ()), ("rotor-like", (0, 3, 5), ()), ("every blade", (5, 0, 3, 6, 1, 7, 2, 4), ())],
+    "sw": [("rotor on a vector", (0, 3), (1, 2, 4)), ("single blade on a single blade", (3,), (1,)), ("null blade on a vector", (6,), (1, 2)), ("scalar on a bivector", (0,), (3, 5)),
+           ("vector on every blade", (1, 2, 4), (0, 1, 2, 3, 4, 5, 6, 7))],
+    "proj": [("vector on a bivector", (1, 2), (3, 5)), ("single blade on a single blade", (1,), (3,)), ("bivector on a vector", (3, 6), (1, 2, 4)),
+             ("mixed on a scalar", (0, 1, 7), (0,))],
+}
+
+
+@rule("C06.semantic", props=["C06", "C19"], min_instances=14, mutants=[
+    ("normsq of a single blade is the square of its coefficient", ("codegen", "def codegen_normsq(x):\n    return x * ~x", "def codegen_normsq(x):\n    if len(x) == 1:\n        (v,) = x.values()\n        return {0: v * v}\n    return x * ~x")),
+    ("sw of a single blade skips the reversion", ("codegen", "    return x * y * ~x", "    return x * y * x if len(x) == 1 else x * y * ~x")),
+    ("proj onto a single blade divides nothing but forgets the reversion", ("codegen", "    return (x | y) * ~y", "    return (x | y) * (y if len(y) == 1 else ~y)")),
+], rewrites=[
+    ("normsq of a pure scalar is its square", ("codegen", "def codegen_normsq(x):\n    return x * ~x", "def codegen_normsq(x):\n    if x.keys() == (0,):\n        return x * x\n    return x * ~x")),
+])
+def semantic(ctx):
+    """sw, proj and normsq interpreted from the source on representative operands with symbolic coefficients - single
+    blades of every square (+1, -1, 0), scalars, mixed multivectors - where every elementary operator the function
+    applies answers with the specification: whatever shortcut the function takes for operands of a special shape,
+    what it returns is coefficient for coefficient x*y*~x, (x|y)*~y, x*~x."""
+    from ..specmv import attach_spec_operators, as_spec, Spec
+    from .c02 import operands
+    repo = ctx.repo
+    reg = operator_registry(repo)
+    sig = [1, -1, 0]
+    for op, reps in SEMANTIC_REPS.items():
+        cg = reg[op].codegen
+        q = f"codegen.{cg}"
+        fn = ctx.func(q)
+        for label, xk, yk in reps:
+            c = f"{q}#semantic:{label}"
+            alg, x, y = operands(sig, xk, yk)
+            spec = attach_spec_operators(alg, sig)
+            it = make_interp(repo)
+            it.algebra = alg
+            it.instance_classes["algebra"] = "algebra.Algebra"
+            try:
+                out = it.run(q, [x] if op == "normsq" else [x, y])
+            except NoValue as exc:
+                raise Unknown(c, str(exc), fn)
+            if out[0] == "raise":
+                ctx.violation(c, f"{cg} raises {out[1]} on {label}", fn)
+                continue
+            got = as_spec(out[1])
+            if got is None:
+                raise Unknown(c, f"evaluates to {out[1]!r}", fn)
+            got = Spec.clean(got)
+            xs, ys = as_spec(x), as_spec(y)
+            want = spec.normsq(xs) if op == "normsq" else getattr(spec, op)(xs, ys)
+            if got == want:
+                ctx.ok(c, fn, blades=len(want))
+            else:
+                bad = [f"blade {k:#b}: got {got.get(k)!r}, the definition gives {want.get(k)!r}" for k in sorted(set(got) | set(want)) if got.get(k) != want.get(k)]
+                ctx.violation(c, f"{op} ({label}, signature {sig}): " + "; ".join(bad[:3]), fn)
 
 
 @rule("C06.filter", props=["C06", "C12"], min_instances=4, mutants=[
